@@ -22,6 +22,10 @@ pub struct TrioWorld {
 
 /// kinds: false = native, true = cw20
 pub fn deploy_trio(kinds: [bool; 3], decimals: [u8; 3], fees: trio::PoolFee, amp: u64) -> Result<TrioWorld, String> {
+    deploy_trio_denoms(kinds, decimals, fees, amp, [DENOMS[0], DENOMS[1], DENOMS[2]])
+}
+/// the same with the native denoms given (e.g. two that differ only in case: bank denoms are case-sensitive)
+pub fn deploy_trio_denoms(kinds: [bool; 3], decimals: [u8; 3], fees: trio::PoolFee, amp: u64, denoms: [&str; 3]) -> Result<TrioWorld, String> {
     let mut app = new_app();
     let token_code = app.store_code(token_contract());
     let cw20_code = app.store_code(cw20_base_contract());
@@ -32,7 +36,7 @@ pub fn deploy_trio(kinds: [bool; 3], decimals: [u8; 3], fees: trio::PoolFee, amp
             let a = deploy_cw20(&mut app, cw20_code, ["TOKA", "TOKB", "TOKC"][i], decimals[i]);
             infos.push(token(&a));
         } else {
-            infos.push(native(DENOMS[i]));
+            infos.push(native(denoms[i]));
         }
     }
     let assets = [infos[0].clone(), infos[1].clone(), infos[2].clone()];
